@@ -1,6 +1,7 @@
 import Qv.Model.FreeRange
 import Qv.Model.Dev
 import Qv.Props.C15
+import Qv.Proofs.Grow
 /-
 Helper lemmas for C08 (cluster allocator): the free-window search of
 `RefBlock::get_free_range` / `get_tail_free_range`, the slice-level allocation
@@ -395,7 +396,7 @@ theorem freeClusters_succ (host n : Nat) (fz : Bool) (d : Dev) :
     freeClusters host (n + 1) fz d =
       if RT.isZero (rtEntryAt d host) then (d, .err .other)
       else if d.rc.get (host / d.info.clusterSize) = 0 then
-        (d, .panic "alloc.rs:free_clusters:decrement-unwrap")
+        (d, .err .invalid)   -- was a panic (`decrement().unwrap()`); the code now returns an error
       else if fz = true ∧ d.rc.get (host / d.info.clusterSize) - 1 = 0 then
         freeClusters (host + d.info.clusterSize) n false
           { d with rc := d.rc.set (host / d.info.clusterSize) (d.rc.get (host / d.info.clusterSize) - 1),
@@ -720,12 +721,17 @@ theorem tryAllocateLoop_succ (rbEnd allocCnt fuel host count outOff done : Nat) 
     · rfl
   · rw [if_pos hc, if_pos hc]
 /-- the part of the state the allocator loops never change (only
-    `ensure_refblock_offset` touches `rt`) -/
-def SameMeta (d d' : Dev) : Prop := d'.info = d.info ∧ d'.rtLen = d.rtLen ∧ d'.rt = d.rt
+    `ensure_refblock_offset` touches `rt`).  CHANGED (reftable growth): the header's
+    `refcount_table_clusters` is part of it too (strengthening) — together with `info`
+    and `rtLen` it determines whether and how far the table can still grow (`rtCap`). -/
+def SameMeta (d d' : Dev) : Prop :=
+  d'.info = d.info ∧ d'.rtLen = d.rtLen ∧ d'.rt = d.rt ∧ d'.hdrRtClusters = d.hdrRtClusters
 
-theorem SameMeta.refl (d : Dev) : SameMeta d d := ⟨rfl, rfl, rfl⟩
+theorem SameMeta.refl (d : Dev) : SameMeta d d := ⟨rfl, rfl, rfl, rfl⟩
 theorem SameMeta.trans {a b c : Dev} (h1 : SameMeta a b) (h2 : SameMeta b c) : SameMeta a c :=
-  ⟨h2.1.trans h1.1, h2.2.1.trans h1.2.1, h2.2.2.trans h1.2.2⟩
+  ⟨h2.1.trans h1.1, h2.2.1.trans h1.2.1, h2.2.2.1.trans h1.2.2.1, h2.2.2.2.trans h1.2.2.2⟩
+theorem SameMeta.rtCap {a b : Dev} (h : SameMeta a b) : rtCap b = rtCap a :=
+  rtCap_congr h.1 h.2.1 h.2.2.2
 
 theorem tryAlloc_sameMeta {off count : Nat} {fixed : Bool} {d d' : Dev} {r : Outcome (Option (Nat × Nat))}
     (h : tryAllocFromRbSlice off count fixed d = (d', r)) : SameMeta d d' := by
@@ -738,26 +744,41 @@ theorem tryAlloc_sameMeta {off count : Nat} {fixed : Bool} {d d' : Dev} {r : Out
   | some x =>
     obtain ⟨o, n⟩ := x
     obtain ⟨s, _, _, _, _, _, _, _, _, _, h10⟩ := tryAlloc_some h'
-    rw [h10]; exact ⟨rfl, rfl, rfl⟩
+    rw [h10]; exact ⟨rfl, rfl, rfl, rfl⟩
 
 theorem freeClusters_sameMeta {host n : Nat} {fz : Bool} {d d' : Dev} {r : Outcome Unit}
     (h : freeClusters host n fz d = (d', r)) : SameMeta d d' := by
   have := (freeClusters_frame host n fz d).1
   rw [h] at this
   dsimp only at this
-  rw [this]; exact ⟨rfl, rfl, rfl⟩
+  rw [this]; exact ⟨rfl, rfl, rfl, rfl⟩
 
-theorem freeClusters_err_other {host n : Nat} {fz : Bool} {d d' : Dev} {e : Err}
-    (h : freeClusters host n fz d = (d', .err e)) : e = .other := by
+/-- CHANGED (was `freeClusters_err_other : e = .other`): decrementing a zero refcount
+    is now an error (`invalid`) instead of a panic, so there are two error values. -/
+theorem freeClusters_err {host n : Nat} {fz : Bool} {d d' : Dev} {e : Err}
+    (h : freeClusters host n fz d = (d', .err e)) : e = .other ∨ e = .invalid := by
   induction n generalizing host fz d with
   | zero => simp [freeClusters, M.pure] at h
   | succ n ih =>
     rw [freeClusters_succ] at h
     split at h
-    · simp only [Prod.mk.injEq, Outcome.err.injEq] at h; exact h.2.symm
+    · simp only [Prod.mk.injEq, Outcome.err.injEq] at h; exact Or.inl h.2.symm
     · split at h
-      · simp at h
+      · simp only [Prod.mk.injEq, Outcome.err.injEq] at h; exact Or.inr h.2.symm
       · split at h <;> exact ih h
+
+/-- NEW (stronger than before the change of `free_clusters`): it never panics -/
+theorem freeClusters_nopanic (host n : Nat) (fz : Bool) (d : Dev) (p : String) :
+    (freeClusters host n fz d).2 ≠ .panic p := by
+  induction n generalizing host fz d with
+  | zero => simp [freeClusters, M.pure]
+  | succ n ih =>
+    rw [freeClusters_succ]
+    split
+    · simp
+    · split
+      · simp
+      · split <;> exact ih _ _ _
 
 /-- frame of one loop iteration -/
 theorem loopStep_sameMeta (rbEnd allocCnt host count outOff done : Nat) (d : Dev) :
@@ -896,11 +917,9 @@ theorem loopStep_measure (rbEnd allocCnt host count outOff done : Nat) (d : Dev)
             rw [hold, if_neg hf.1]
             unfold loopMeasure
             split <;> simp <;> omega
-          · have := freeClusters_err_other hr3
-            subst this; simp
+          · rcases freeClusters_err hr3 with rfl | rfl <;> simp
           · simp
-        · have := freeClusters_err_other hr2
-          subst this; simp
+        · rcases freeClusters_err hr2 with rfl | rfl <;> simp
         · simp
       · rw [if_neg hf]
         by_cases hn : n > count
@@ -1003,44 +1022,170 @@ theorem loopMeasure_init_lt {i : Info} (g : Geom i) (host allocCnt : Nat) :
 
 theorem rt_isZero_zero : RT.isZero 0#64 = true := by decide
 
-/-- `ensure_refblock_offset` in the model: never panics, fails only with
-    `unsupported` (reftable growth), succeeds only inside the reftable, and leaves
-    `info` / `rtLen` alone -/
+/-- `ensure_refblock_offset` in the model.
+    CHANGED (reftable growth; the old statement said `rtLen` is unchanged, success
+    implies `rtIndex < d.rtLen`, and the only error is `unsupported`): the function now
+    grows the table for an index beyond it.  What remains true: `info` is kept, `rtLen`
+    never decreases, the growth bound `rtCap` never increases, after success the index
+    is inside the (new) table, it never panics; the errors are `unsupported` (growth
+    refused) or, only when the table was relocated, an error of the release of the old
+    table (`other`: no refblock for it, `invalid`: its refcount is 0).  In bounds nothing
+    of this happens: see `ensureRefblock_facts_inb`. -/
 theorem ensureRefblock_facts (off : Nat) (d : Dev) :
+    (ensureRefblock off d).1.info = d.info ∧ d.rtLen ≤ (ensureRefblock off d).1.rtLen ∧
+    rtCap (ensureRefblock off d).1 ≤ rtCap d ∧
+    (∀ u, (ensureRefblock off d).2 = .ok u →
+      Host.rtIndex d.info off < (ensureRefblock off d).1.rtLen) ∧
+    (∀ e, (ensureRefblock off d).2 = .err e → e = .unsupported ∨
+      (¬ Host.rtIndex d.info off < d.rtLen ∧ ¬ NoGrow d ∧ (e = .other ∨ e = .invalid))) ∧
+    (∀ p, (ensureRefblock off d).2 ≠ .panic p) := by
+  by_cases hlt : Host.rtIndex d.info off < d.rtLen
+  · rw [ensureRefblock_inb hlt]
+    obtain ⟨d', h, hi, hl, hc, _, _⟩ := ensureRefblockIn_inb hlt
+    rw [h]
+    exact ⟨hi, Nat.le_of_eq hl.symm, Nat.le_of_eq (rtCap_congr hi hl hc), fun _ _ => hl ▸ hlt,
+      fun e h => (by cases h), fun p h => (by cases h)⟩
+  · have hge : d.rtLen ≤ Host.rtIndex d.info off := by omega
+    rcases ensureRefblock_oob_cases hlt with ⟨_, _, h⟩ | ⟨hip, d2, h2, h⟩ | ⟨hip, hf, d2, h2, h⟩
+    · rw [h]
+      exact ⟨rfl, Nat.le_refl _, Nat.le_refl _, fun u h => (by cases h),
+        fun e h => (by cases h; exact Or.inl rfl), fun p h => (by cases h)⟩
+    · rw [h]
+      have hg := growReftable_inplace' hip
+      obtain ⟨l1, l2, _, l4⟩ := growReftable_ok_len hg
+      have hcap := growReftable_cap hg
+      obtain ⟨d2', h2', hi, hl, hc, _, _⟩ := ensureRefblockIn_inb l1
+      rw [h2] at h2'
+      simp only [Prod.mk.injEq, and_true] at h2'
+      subst h2'
+      refine ⟨hi.trans l4, ?_, ?_, fun _ _ => ?_, fun e h => (by cases h), fun p h => (by cases h)⟩
+      · show d.rtLen ≤ d2.rtLen
+        rw [hl]; exact l2 hge
+      · show rtCap d2 ≤ rtCap d
+        rw [rtCap_congr hi hl hc]; exact hcap
+      · show _ < d2.rtLen
+        rw [hl]; exact l1
+    · have hg := growReftable_relocate' hip hf
+      obtain ⟨l1, l2, _, l4⟩ := growReftable_ok_len hg
+      have hcap := growReftable_cap hg
+      have hng : ¬ NoGrow d := fun hn => (hn.no_branch _).2 hf
+      obtain ⟨d2', h2', hi, hl, hc, _, _⟩ := ensureRefblockIn_inb l1
+      rw [h2] at h2'
+      simp only [Prod.mk.injEq, and_true] at h2'
+      subst h2'
+      rw [h]
+      have hm : SameMeta d2 (freeClusters d.hdrRtOff (growOldCl d) true d2).1 :=
+        freeClusters_sameMeta (r := (freeClusters d.hdrRtOff (growOldCl d) true d2).2) rfl
+      refine ⟨(hm.1.trans hi).trans l4, ?_, ?_, fun _ _ => ?_, fun e he => ?_,
+        fun p => freeClusters_nopanic _ _ _ _ p⟩
+      · rw [hm.2.1, hl]; exact l2 hge
+      · rw [hm.rtCap, rtCap_congr hi hl hc]; exact hcap
+      · rw [hm.2.1, hl]; exact l1
+      · right
+        refine ⟨hlt, hng, freeClusters_err (host := d.hdrRtOff) (n := growOldCl d) (fz := true)
+          (d := d2) (d' := (freeClusters d.hdrRtOff (growOldCl d) true d2).1) ?_⟩
+        rw [← he]
+
+/-- in bounds `ensure_refblock_offset` behaves as before the growth code existed:
+    it succeeds and keeps `info`, `rtLen` and the header's table size -/
+theorem ensureRefblock_facts_inb {off : Nat} {d : Dev} (hlt : Host.rtIndex d.info off < d.rtLen) :
+    ∃ d', ensureRefblock off d = (d', .ok ()) ∧ d'.info = d.info ∧ d'.rtLen = d.rtLen ∧
+      d'.hdrRtClusters = d.hdrRtClusters := by
+  rw [ensureRefblock_inb hlt]
+  obtain ⟨d', h, hi, hl, hc, _, _⟩ := ensureRefblockIn_inb hlt
+  exact ⟨d', h, hi, hl, hc⟩
+
+/-- an `ensure_refblock_offset` for an index beyond the table either is refused
+    (nothing changes) or makes the table strictly longer — also when it then fails in
+    the release of the old table.  Hence "`rtLen` is the same afterwards" characterises
+    the calls that did not grow the table. -/
+theorem ensureRefblock_oob_grows {off : Nat} {d : Dev} (hlt : ¬ Host.rtIndex d.info off < d.rtLen) :
+    ensureRefblock off d = (d, .err .unsupported) ∨ d.rtLen < (ensureRefblock off d).1.rtLen := by
+  have hge : d.rtLen ≤ Host.rtIndex d.info off := by omega
+  rcases ensureRefblock_oob_cases hlt with ⟨_, _, h⟩ | ⟨hip, d2, h2, h⟩ | ⟨hip, hf, d2, h2, h⟩
+  · exact Or.inl h
+  · right
+    rw [h]
+    have l1 := (growReftable_ok_len (growReftable_inplace' hip)).1
+    obtain ⟨d2', h2', _, hl, _⟩ := ensureRefblockIn_inb l1
+    rw [h2] at h2'
+    simp only [Prod.mk.injEq, and_true] at h2'
+    subst h2'
+    show d.rtLen < d2.rtLen
+    rw [hl]; omega
+  · right
+    rw [h]
+    have l1 := (growReftable_ok_len (growReftable_relocate' hip hf)).1
+    obtain ⟨d2', h2', _, hl, _⟩ := ensureRefblockIn_inb l1
+    rw [h2] at h2'
+    simp only [Prod.mk.injEq, and_true] at h2'
+    subst h2'
+    have hm : SameMeta d2 (freeClusters d.hdrRtOff (growOldCl d) true d2).1 :=
+      freeClusters_sameMeta (r := (freeClusters d.hdrRtOff (growOldCl d) true d2).2) rfl
+    rw [hm.2.1, hl]; omega
+
+/-- when the table cannot grow (`NoGrow`), the old statement holds as it was -/
+theorem ensureRefblock_facts_noGrow (off : Nat) (d : Dev) (hn : NoGrow d) :
     (ensureRefblock off d).1.info = d.info ∧ (ensureRefblock off d).1.rtLen = d.rtLen ∧
+    (ensureRefblock off d).1.hdrRtClusters = d.hdrRtClusters ∧
     (∀ u, (ensureRefblock off d).2 = .ok u → Host.rtIndex d.info off < d.rtLen) ∧
     (∀ e, (ensureRefblock off d).2 = .err e → e = .unsupported) ∧
     (∀ p, (ensureRefblock off d).2 ≠ .panic p) := by
-  unfold ensureRefblock
-  dsimp only
   by_cases hlt : Host.rtIndex d.info off < d.rtLen
-  · rw [if_pos hlt]
-    by_cases hz : RT.isZero (d.rt.get (Host.rtIndex d.info off)) = true
-    · rw [if_neg (not_not_intro hz), if_neg (not_not_intro hlt)]
-      exact ⟨rfl, rfl, fun _ _ => hlt, fun e h => (by cases h), fun p h => (by cases h)⟩
-    · rw [if_pos hz]
-      exact ⟨rfl, rfl, fun _ _ => hlt, fun e h => (by cases h), fun p h => (by cases h)⟩
-  · rw [if_neg hlt, if_neg (not_not_intro rt_isZero_zero), if_pos hlt]
-    refine ⟨rfl, rfl, fun u h => (by cases h), fun e h => ?_, fun p h => (by cases h)⟩
-    simp only [Outcome.err.injEq] at h; exact h.symm
+  · obtain ⟨d', h, hi, hl, hc⟩ := ensureRefblock_facts_inb hlt
+    rw [h]
+    exact ⟨hi, hl, hc, fun _ _ => hlt, fun e h => (by cases h), fun p h => (by cases h)⟩
+  · rcases ensureRefblock_oob_cases hlt with ⟨_, _, h⟩ | ⟨hip, _⟩ | ⟨_, hf, _⟩
+    · rw [h]
+      exact ⟨rfl, rfl, rfl, fun u h => (by cases h), fun e h => (by cases h; rfl),
+        fun p h => (by cases h)⟩
+    · exact absurd hip (hn.no_branch _).1
+    · exact absurd hf (hn.no_branch _).2
 
+/-- CHANGED (reftable growth): `rtLen` is no longer constant but non-decreasing, the
+    bound `rtCap` is non-increasing, and success puts the index inside the new table -/
 theorem tryAllocateFrom_sameInfo (host allocCnt : Nat) (d : Dev) :
     (tryAllocateFrom host allocCnt d).1.info = d.info ∧
+    d.rtLen ≤ (tryAllocateFrom host allocCnt d).1.rtLen ∧
+    rtCap (tryAllocateFrom host allocCnt d).1 ≤ rtCap d ∧
+    (∀ r, (tryAllocateFrom host allocCnt d).2 = .ok r →
+      Host.rtIndex d.info host < (tryAllocateFrom host allocCnt d).1.rtLen) := by
+  unfold tryAllocateFrom
+  by_cases h0 : allocCnt = 0
+  · rw [if_pos h0]; exact ⟨rfl, Nat.le_refl _, Nat.le_refl _, fun r h => by cases h⟩
+  · rw [if_neg h0]
+    obtain ⟨e1, e2, ec, e3, _, _⟩ := ensureRefblock_facts host d
+    generalize ensureRefblock host d = r at e1 e2 ec e3
+    rcases r with ⟨d1, _ | e | p⟩
+    · dsimp only at e1 e2 ec e3 ⊢
+      have := tryAllocateLoop_sameMeta (Host.rbHostEnd d1.info host) allocCnt
+        (2 * (d1.info.rbEntries / max d1.info.rbSliceEntries 1 + 2 + allocCnt) + 4) host allocCnt 0 0 d1
+      refine ⟨this.1.trans e1, ?_, ?_, fun _ _ => ?_⟩
+      · rw [this.2.1]; exact e2
+      · rw [this.rtCap]; exact ec
+      · rw [this.2.1]; exact e3 () rfl
+    · exact ⟨e1, e2, ec, fun r h => by cases h⟩
+    · exact ⟨e1, e2, ec, fun r h => by cases h⟩
+
+/-- when the table cannot grow, `try_allocate_from` keeps `rtLen` (the old statement) -/
+theorem tryAllocateFrom_sameInfo_noGrow (host allocCnt : Nat) (d : Dev) (hn : NoGrow d) :
+    (tryAllocateFrom host allocCnt d).1.info = d.info ∧
     (tryAllocateFrom host allocCnt d).1.rtLen = d.rtLen ∧
+    (tryAllocateFrom host allocCnt d).1.hdrRtClusters = d.hdrRtClusters ∧
     (∀ r, (tryAllocateFrom host allocCnt d).2 = .ok r → Host.rtIndex d.info host < d.rtLen) := by
   unfold tryAllocateFrom
   by_cases h0 : allocCnt = 0
-  · rw [if_pos h0]; exact ⟨rfl, rfl, fun r h => by cases h⟩
+  · rw [if_pos h0]; exact ⟨rfl, rfl, rfl, fun r h => by cases h⟩
   · rw [if_neg h0]
-    obtain ⟨e1, e2, e3, _, _⟩ := ensureRefblock_facts host d
-    generalize ensureRefblock host d = r at e1 e2 e3
+    obtain ⟨e1, e2, ec, e3, _, _⟩ := ensureRefblock_facts_noGrow host d hn
+    generalize ensureRefblock host d = r at e1 e2 ec e3
     rcases r with ⟨d1, _ | e | p⟩
-    · dsimp only at e1 e2 e3 ⊢
+    · dsimp only at e1 e2 ec e3 ⊢
       have := tryAllocateLoop_sameMeta (Host.rbHostEnd d1.info host) allocCnt
         (2 * (d1.info.rbEntries / max d1.info.rbSliceEntries 1 + 2 + allocCnt) + 4) host allocCnt 0 0 d1
-      exact ⟨this.1.trans e1, this.2.1.trans e2, fun _ _ => e3 () rfl⟩
-    · exact ⟨e1, e2, fun r h => by cases h⟩
-    · exact ⟨e1, e2, fun r h => by cases h⟩
+      exact ⟨this.1.trans e1, this.2.1.trans e2, this.2.2.2.trans ec, fun _ _ => e3 () rfl⟩
+    · exact ⟨e1, e2, ec, fun r h => by cases h⟩
+    · exact ⟨e1, e2, ec, fun r h => by cases h⟩
 
 /-- the fuel the model passes to the `try_allocate_from` loop is sufficient: any
     larger fuel gives the same result … -/
@@ -1066,7 +1211,7 @@ theorem tryAllocateFrom_no_nospace (host allocCnt : Nat) (d : Dev) (g : Geom d.i
   by_cases h0 : allocCnt = 0
   · rw [if_pos h0]; simp
   · rw [if_neg h0]
-    obtain ⟨e1, _, _, e4, _⟩ := ensureRefblock_facts host d
+    obtain ⟨e1, _, _, _, e4, _⟩ := ensureRefblock_facts host d
     generalize ensureRefblock host d = r at e1 e4
     rcases r with ⟨d1, _ | e | p⟩
     · dsimp only at e1 ⊢
@@ -1075,8 +1220,7 @@ theorem tryAllocateFrom_no_nospace (host allocCnt : Nat) (d : Dev) (g : Geom d.i
       exact (tryAllocateLoop_fuel_aux _ allocCnt _ host allocCnt 0 0 d1 (e1 ▸ g)
         (by rw [e1]; exact hlt)).2
     · dsimp only at e4 ⊢
-      have := e4 e rfl
-      subst this; simp
+      rcases e4 e rfl with rfl | ⟨_, _, rfl | rfl⟩ <;> simp
     · simp
 
 theorem rtIndex_rbHostEnd {i : Info} (g : Geom i) (off : Nat) :
@@ -1089,25 +1233,29 @@ theorem rtIndex_rbHostEnd {i : Info} (g : Geom i) (off : Nat) :
 
 /-- Fuel sufficiency of the outer loop of `allocate_clusters`: it advances by
     one reftable entry per iteration and stops (with an error of
-    `ensure_refblock_offset`) at the end of the reftable. -/
+    `ensure_refblock_offset`) when the reftable can grow no further.
+    CHANGED (reftable growth): the measure was `d.rtLen - rtIndex hostOff`; the table
+    now grows under the loop, so the measure is taken against the bound `rtCap d`
+    (`= d.rtLen` when the table cannot grow, see `rtCap_of_noGrow`). -/
 theorem allocateLoop_fuel_aux (count : Nat) (f1 : Nat) :
     ∀ (hostOff : Nat) (d : Dev), Geom d.info →
-      d.rtLen - Host.rtIndex d.info hostOff < f1 →
-      (∀ f2, d.rtLen - Host.rtIndex d.info hostOff < f2 →
+      rtCap d - Host.rtIndex d.info hostOff < f1 →
+      (∀ f2, rtCap d - Host.rtIndex d.info hostOff < f2 →
         allocateLoop count f1 hostOff d = allocateLoop count f2 hostOff d) ∧
       (allocateLoop count f1 hostOff d).2 ≠ .err .nospace := by
   induction f1 with
   | zero => intro _ _ _ h; omega
   | succ f1 ih =>
     intro hostOff d g h1
-    obtain ⟨e1, e2, e3⟩ := tryAllocateFrom_sameInfo hostOff count d
+    obtain ⟨e1, _, e2, e3⟩ := tryAllocateFrom_sameInfo hostOff count d
     have hns := tryAllocateFrom_no_nospace hostOff count d g
-    have hnext : ∀ d1 : Dev, d1.info = d.info → d1.rtLen = d.rtLen →
-        Host.rtIndex d.info hostOff < d.rtLen →
-        d1.rtLen - Host.rtIndex d1.info (Host.rbHostEnd d1.info hostOff)
-          < d.rtLen - Host.rtIndex d.info hostOff := by
+    have hnext : ∀ d1 : Dev, d1.info = d.info → rtCap d1 ≤ rtCap d →
+        Host.rtIndex d.info hostOff < d1.rtLen →
+        rtCap d1 - Host.rtIndex d1.info (Host.rbHostEnd d1.info hostOff)
+          < rtCap d - Host.rtIndex d.info hostOff := by
       intro d1 a b c
-      rw [a, b, rtIndex_rbHostEnd g]; omega
+      have := rtLen_le_rtCap d1
+      rw [a, rtIndex_rbHostEnd g]; omega
     constructor
     · intro f2 h2
       cases f2 with
@@ -1131,6 +1279,127 @@ theorem allocateLoop_fuel_aux (count : Nat) (f1 : Nat) :
       · exact hns
       · simp
 
+
+/-- the table never shrinks under the outer loop, and the growth bound never rises -/
+theorem allocateLoop_rtLen_mono (count f hostOff : Nat) (d : Dev) :
+    (allocateLoop count f hostOff d).1.info = d.info ∧
+    d.rtLen ≤ (allocateLoop count f hostOff d).1.rtLen ∧
+    rtCap (allocateLoop count f hostOff d).1 ≤ rtCap d := by
+  induction f generalizing hostOff d with
+  | zero => exact ⟨rfl, Nat.le_refl _, Nat.le_refl _⟩
+  | succ f ih =>
+    rw [allocateLoop]
+    dsimp only
+    obtain ⟨e1, e2, e3, _⟩ := tryAllocateFrom_sameInfo hostOff count d
+    generalize tryAllocateFrom hostOff count d = r at e1 e2 e3 ⊢
+    rcases r with ⟨d1, (_ | ⟨o, n⟩) | e | p⟩
+    all_goals (try dsimp only at e1 e2 e3 ⊢)
+    · obtain ⟨a, b, c⟩ := ih (Host.rbHostEnd d1.info hostOff) d1
+      exact ⟨a.trans e1, Nat.le_trans e2 b, Nat.le_trans c e3⟩
+    · split
+      · exact ⟨e1, e2, Nat.le_trans (Nat.le_of_eq (rtCap_congr rfl rfl rfl)) e3⟩
+      · exact ⟨e1, e2, e3⟩
+    · exact ⟨e1, e2, e3⟩
+    · exact ⟨e1, e2, e3⟩
+
+/-! ### a frame principle for the whole allocator
+
+A reflexive, transitive relation between states that the four primitive steps
+(`growReftable`, `ensureRefblockIn`, `freeClusters`, `tryAllocFromRbSlice`) and the
+update of the hint respect is respected by `allocate_clusters`, whatever the outcome. -/
+
+section Rel
+variable (R : Dev → Dev → Prop) (hrefl : ∀ d, R d d) (htrans : ∀ a b c, R a b → R b c → R a c)
+  (hg : ∀ i d, d.rtLen ≤ i → R d (growReftable i d).1) (he : ∀ i d, R d (ensureRefblockIn i d).1)
+  (hf : ∀ o n fz d, R d (freeClusters o n fz d).1)
+  (ha : ∀ off count fixed d, R d (tryAllocFromRbSlice off count fixed d).1)
+  (hh : ∀ d x, R d { d with hint := x })
+include hrefl htrans hf ha
+
+theorem loopStep_rel (rbEnd allocCnt host count outOff done : Nat) (d : Dev) :
+    match loopStep rbEnd allocCnt host count outOff done d with
+    | .ret r => R d r.1
+    | .cont _ _ _ _ d' => R d d' := by
+  unfold loopStep
+  dsimp only
+  by_cases hc : count > 0 ∧ host < rbEnd
+  · rw [if_neg (not_not_intro hc)]
+    have m1 := ha host (min count d.info.rbSliceEntries) (decide (done ≠ 0)) d
+    generalize tryAllocFromRbSlice host (min count d.info.rbSliceEntries) (decide (done ≠ 0)) d = r at m1
+    rcases r with ⟨d1, (_ | ⟨o, n⟩) | e | p⟩
+    all_goals (try dsimp only at m1 ⊢)
+    · by_cases h0 : done = 0
+      · rw [if_pos h0]; exact m1
+      · rw [if_neg h0]; exact m1
+    · by_cases hf' : done ≠ 0 ∧ host ≠ o
+      · rw [if_pos hf']
+        have m2 := hf outOff done true d1
+        generalize freeClusters outOff done true d1 = r2 at m2
+        rcases r2 with ⟨d2, _ | e | p⟩
+        all_goals (try dsimp only at m2 ⊢)
+        · have m3 := hf o n true d2
+          generalize freeClusters o n true d2 = r3 at m3
+          rcases r3 with ⟨d3, _ | e | p⟩ <;>
+            exact htrans _ _ _ m1 (htrans _ _ _ m2 m3)
+        · exact htrans _ _ _ m1 m2
+        · exact htrans _ _ _ m1 m2
+      · rw [if_neg hf']
+        by_cases hn : n > count
+        · rw [if_pos hn]; exact m1
+        · rw [if_neg hn]; exact m1
+    · exact m1
+    · exact m1
+  · rw [if_pos hc]; exact hrefl d
+
+theorem tryAllocateLoop_rel (rbEnd allocCnt fuel host count outOff done : Nat) (d : Dev) :
+    R d (tryAllocateLoop rbEnd allocCnt fuel host count outOff done d).1 := by
+  induction fuel generalizing host count outOff done d with
+  | zero => exact hrefl d
+  | succ fuel ih =>
+    rw [tryAllocateLoop_succ]
+    have := loopStep_rel R hrefl htrans hf ha rbEnd allocCnt host count outOff done d
+    split <;> rename_i heq <;> rw [heq] at this
+    · exact this
+    · exact htrans _ _ _ this (ih _ _ _ _ _)
+
+include hg he
+
+theorem tryAllocateFrom_rel (host allocCnt : Nat) (d : Dev) :
+    R d (tryAllocateFrom host allocCnt d).1 := by
+  unfold tryAllocateFrom
+  split
+  · exact hrefl d
+  · have h1 := ensureRefblock_rel R hrefl htrans hg he hf host d
+    generalize ensureRefblock host d = r at h1
+    rcases r with ⟨d1, _ | e | p⟩
+    · exact htrans _ _ _ h1 (tryAllocateLoop_rel R hrefl htrans hf ha _ _ _ _ _ _ _ d1)
+    · exact h1
+    · exact h1
+
+include hh
+
+theorem allocateLoop_rel (count fuel hostOff : Nat) (d : Dev) :
+    R d (allocateLoop count fuel hostOff d).1 := by
+  induction fuel generalizing hostOff d with
+  | zero => exact hrefl d
+  | succ fuel ih =>
+    rw [allocateLoop]
+    dsimp only
+    have h1 := tryAllocateFrom_rel R hrefl htrans hg he hf ha hostOff count d
+    generalize tryAllocateFrom hostOff count d = r at h1
+    rcases r with ⟨d1, (_ | ⟨o, n⟩) | e | p⟩
+    all_goals (try dsimp only at h1 ⊢)
+    · exact htrans _ _ _ h1 (ih _ d1)
+    · split
+      · exact htrans _ _ _ h1 (hh d1 _)
+      · exact h1
+    · exact h1
+    · exact h1
+
+theorem allocateClusters_rel (count : Nat) (d : Dev) : R d (allocateClusters count d).1 :=
+  allocateLoop_rel R hrefl htrans hg he hf ha hh count _ _ d
+
+end Rel
 
 /-- fuel monotonicity, no geometry assumption: a result other than the
     fuel-exhaustion error is stable under adding fuel -/
